@@ -285,6 +285,7 @@ class C20(Prop):
 
             slow = set(c.get('slow', ()))
             gated = set(c.get('gated', ()))      # bodies whose clean-up after a cancellation blocks until op ['u', i]
+            timed = {int(k_): v_ for k_, v_ in c.get('timed', {}).items()}    # … takes that many seconds on the virtual clock
             outs = [list(o) for o in outs]       # the online body may submit more work (op ['bc']): grows
 
             def mk(i):
@@ -307,6 +308,14 @@ class C20(Prop):
                             while not g.done():
                                 try:
                                     await asyncio.shield(g)
+                                except asyncio.CancelledError:
+                                    continue
+                        if i in timed and not own:              # clean-up that takes (virtual) time
+                            state[i] = 'C'
+                            deadline = s.loop.time() + timed[i]
+                            while s.loop.time() < deadline:
+                                try:
+                                    await asyncio.sleep(deadline - s.loop.time())
                                 except asyncio.CancelledError:
                                     continue
                         if i in slow and not own:               # clean-up that needs a few more loop iterations
@@ -434,6 +443,8 @@ class C20(Prop):
                         s.open(('t', i), value=asyncio.CancelledError())   # a CancelledError instance RETURNED as the value
                     else:
                         s.open(('t', i), exc=TaskError(v))
+                elif op[0] == 'adv':
+                    s.advance(op[1])                 # the virtual clock moves on; due timers fire in order
                 elif op[0] == 'u':
                     if not (0 <= op[1] < len(state)) or state[op[1]] != 'C':
                         out.append('err')
@@ -460,8 +471,10 @@ class C20(Prop):
                         s.open(('body', body_gate[0]), exc=TaskError(op[2]))
                 out.append(line())
             for i in range(len(state)):          # let pending clean-ups end so that the loop can be closed
-                if state[i] == 'C':
+                if state[i] == 'C' and i in gated:
                     s.open(('u', i))
+            if timed:
+                s.advance(2 * 3600 + 10)
             return out
         finally:
             asyncio.Semaphore = real_sema
@@ -619,6 +632,17 @@ class C20(Prop):
             # cancel_on_error waits for a lasting clean-up before it raises
             {'fl': 'rc', 'entry': 'hold', 'n': 2, 'outs': [['e', 11], ['r', 20]], 'ops': [['f', 0], ['u', 1]], 'gated': [1]},
         ]
+        boundary += [
+            # a task fails, the sibling's clean-up takes 61 s / 300 s / 1 h of virtual time; the body leaves; the clock advances past
+            # 60 s: the pool exit must still be waiting until the clean-up has ended
+            {'fl': 'on', 'entry': 'hold', 'n': 2, 'outs': [['e', 11], ['r', 20]], 'ops': [['f', 0], ['b', 'r', 0], ['adv', 60], ['adv', 1], ['adv', 1]],
+             'timed': {'1': 61}},
+            {'fl': 'on', 'entry': 'hold', 'n': 2, 'outs': [['e', 11], ['r', 20]], 'ops': [['b', 'r', 0], ['f', 0], ['adv', 61], ['adv', 239]],
+             'timed': {'1': 300}},
+            {'fl': 'on', 'entry': 'hold', 'n': 3, 'outs': [['r', 10], ['e', 21], ['r', 30]], 'ops': [['f', 1], ['adv', 59], ['b', 'r', 0], ['adv', 2], ['adv', 3600]],
+             'timed': {'0': 3600, '2': 45}},
+            {'fl': 'rc', 'entry': 'hold', 'n': 2, 'outs': [['e', 11], ['r', 20]], 'ops': [['f', 0], ['adv', 61], ['adv', 300]], 'timed': {'1': 300}},
+        ]
         for c in boundary:
             self._slow_cases += 1
             msg = self.oracle(c, self.impl(c))
@@ -630,7 +654,33 @@ class C20(Prop):
             msg = self.oracle(c, self.impl(c))
             if msg:
                 fails.append((c, msg))
+        # clean-ups that take TIME on the virtual clock (a sleep inside the cancellation handler): 0 s … 1 h
+        for _ in range(800 if tier == 'quick' else 8000):
+            c = self._random_timed_case(rng)
+            self._slow_cases += 1
+            msg = self.oracle(c, self.impl(c))
+            if msg:
+                fails.append((c, msg))
         return fails
+
+    def _random_timed_case(self, rng):
+        fl = rng.choice(['on', 'on', 'on', 'rc', 'rx'])
+        n = rng.choice([2, 2, 3])
+        k = rng.choice([2, 2, 3, 4])
+        outs = [['e', 10 * (i + 1) + 1] if rng.random() < 0.4 else ['r', 10 * (i + 1)] for i in range(k)]
+        if not any(o[0] == 'e' for o in outs):
+            outs[rng.randrange(k)] = ['e', 1]
+        timed = {str(i): rng.choice([0, 1, 59, 60, 61, 300, 3600]) for i in rng.sample(range(k), rng.randint(1, k))}
+        ops = [['f', i] for i in range(k)]
+        if fl == 'on':
+            ops.append(['b', 'e' if rng.random() < 0.2 else 'r', 99])
+        else:
+            if rng.random() < 0.3:
+                ops.append(['x'])
+        for _ in range(rng.choice([1, 2, 3])):
+            ops.append(['adv', rng.choice([1, 58, 59, 60, 61, 62, 240, 3600])])
+        rng.shuffle(ops)
+        return {'fl': fl, 'entry': 'hold', 'n': n, 'outs': outs, 'ops': ops, 'timed': timed}
 
     def _random_gated_case(self, rng):
         fl = rng.choice(['on', 'on', 'on', 'rc', 'rx', 'rf'])
@@ -679,6 +729,8 @@ class C20(Prop):
         for key in ('slow', 'gated'):
             if key in c:
                 c[key] = [x - 1 if x > i else x for x in c[key] if x != i]
+        if 'timed' in c:
+            c['timed'] = {str(int(k_) - 1 if int(k_) > i else int(k_)): v_ for k_, v_ in c['timed'].items() if int(k_) != i}
         return c
 
     def _minimise(self, c, tag):
@@ -708,6 +760,11 @@ class C20(Prop):
                 if attempt(dict(cur, ops=cur['ops'][:j] + cur['ops'][j + 1:])):
                     changed = True
                     break
+            if cur.get('timed'):
+                for k_ in list(cur['timed']):
+                    if attempt(dict(cur, timed={a_: b_ for a_, b_ in cur['timed'].items() if a_ != k_})):
+                        changed = True
+                        break
             for key in ('slow', 'gated'):
                 if cur.get(key) is not None and key in cur:
                     if attempt({k_: v_ for k_, v_ in cur.items() if k_ != key}):
